@@ -29,7 +29,7 @@ man = {
     "hooks": {
         "guard": "cargo feature `verif` of open-coroutine-core (cfg(feature = \"verif\"))",
         "enable": "the harness crate /verif/harness depends on /repo/core with features = [\"verif\"]",
-        "baseline_off_cmd": "cd /repo && cargo test --workspace --no-fail-fast --offline",
+        "baseline_off_cmd": "cd /repo && (cargo nextest run --workspace --no-fail-fast --offline --test-threads 8 || cargo test --workspace --no-fail-fast --offline)",
         "source_commits": HOOK_COMMITS,
         "add_only": True,
     },
